@@ -328,16 +328,22 @@ def build_class(prog, rec, W, decorated=True):
         if rid is not None and W.world == 'LIVE':
             W.recording_ids.append(rid)
         seen = []
-        run_steps(inst, prog['steps'], seen)
-        ending = prog.get('ending', 'return')
-        if ending == 'raise':
-            raise V.Err('ending')
-        if ending == 'interrupt':
-            raise V.Interrupt('ending')
-        return {'seen': seen, 'result': V.build(prog.get('result'))}
+        W.t_body_start = time.time()
+        try:
+            run_steps(inst, prog['steps'], seen)
+            ending = prog.get('ending', 'return')
+            if ending == 'raise':
+                raise V.Err('ending')
+            if ending == 'interrupt':
+                raise V.Interrupt('ending')
+            return {'seen': seen, 'result': V.build(prog.get('result'))}
+        finally:
+            W.t_body_end = time.time()
 
     def extractor(*a, **k):
-        W.journal.append(('extractor', W.world))
+        W.journal.append(('extractor', W.world, len(a), sorted(k)))
+        if prog.get('extractor_sleep_ms'):
+            time.sleep(prog['extractor_sleep_ms'] / 1000.0)
         mode = prog.get('extractor', 'none')
         if mode == 'raises':
             raise RuntimeError('metadata extractor failing on purpose')
